@@ -4,9 +4,13 @@ Property theorems only.  Model: FlexModel/Ldm/Subs.lean (repaired code; variant 
 C14-KF1); lemmas: FlexModel/Ldm/SubsLemmas.lean; the query of a subscription is C13's (`Props.C13.query_exact`).
 Every theorem is for ALL callback behaviours `β` (a callback may only record, raise, or re-enter IF.LDM.4 with an
 unsubscribe / a deregistration) unless it says `passive`.
+The last section (round 4) is about TWO THREADS: a removal racing an in-flight attendance, model FlexModel/Ldm/SubsRace.lean,
+guard positions read from the source (Generated/LdmSections.lean).
 -/
 import FlexModel.Ldm.SubsLemmas
 import FlexModel.Ldm.QueryLemmas
+import FlexModel.Ldm.SubsRace
+import Generated.LdmSections
 
 namespace Props.C14
 open FlexModel.Ldm FlexModel.Ldm.Spec Generated.Ldm
@@ -575,5 +579,100 @@ def stReenter : SSt :=
 example : (attend cfg0 false unsubNext stReenter).2.map (·.cb) = [0] ∧ (attend cfg0 false quiet stReenter).2.map (·.cb) = [0, 1] ∧
     (attend cfg0 false unsubNext stReenter).1.subs.map (·.cb) = [0] := by
   decide
+
+/-! ## a removal racing an in-flight attendance on another thread (round 4)
+
+Model: FlexModel/Ldm/SubsRace.lean (two threads, atomic instructions, lock acquisition / release are steps; every list of
+thread choices is a schedule).  "After unsubscription … its callback is not invoked again" cannot hold without exception
+once threads are involved - the callback is invoked with no lock held, so a removal may return between the decision and
+the invocation (known finding C14-KF2).  What IS proved: that this is the only exception when the membership test is part
+of the locked decision section, and which second window (C14-KF3) the code has when the test is only made in a section
+of its own right before `process_notifications`. -/
+section Race
+open FlexModel.Ldm.SubsRace
+
+/-- **race_regions** (all schedules; all positions `g` of the membership test; `arm`: a missing last-checked record is
+re-created; `z`: notification interval None / 0, else > 0 and elapsed).  When the code tests "still stored?" inside the
+locked decision section (`g.dec`), or in a locked section directly before `process_notifications` and re-arms a missing
+record (`g.mid ∧ arm`), a callback invoked AFTER the removal had returned is explained by one of two windows:
+(KF2) the decision to notify was taken, under the lock, BEFORE the removal returned; or
+(KF3) there is no test inside the decision section, the interval is None / 0, and the search / ordering phase of the
+attendance had ENDED before the removal returned (the removal fell between the separate membership section and the
+decision section).  In particular a removal that returns while the attendance is still searching or ordering is never
+followed by a callback, and with an interval > 0 only window KF2 exists. -/
+theorem race_regions (g : Guards) (arm z : Bool) (hg : g.dec = true ∨ (g.mid = true ∧ arm = true)) (sched : List Bool)
+    (hcb : (run g arm z sched).cbAG = true) :
+    (run g arm z sched).decBG = true ∨ (g.dec = false ∧ z = true ∧ (run g arm z sched).readyBG = true) := by
+  have hg' : (g.dec || (g.mid && arm)) = true := by
+    rcases hg with h | ⟨h1, h2⟩
+    · simp [h]
+    · simp [h1, h2]
+  have h := (List.all_eq_true.mp (regions_table g arm z hg')) _ (run_reach g arm z sched)
+  simp only [safeB, hcb, Bool.not_true, Bool.false_or, Bool.or_eq_true, Bool.and_eq_true, Bool.not_eq_true'] at h
+  rcases h with h | ⟨⟨h1, h2⟩, h3⟩
+  · exact Or.inl h
+  · exact Or.inr ⟨h1, h2, h3⟩
+
+/-- **race_repaired** — with the membership test inside the decision section the ONLY callback after a removal is one
+whose notification had been decided before the removal returned (C14-KF2; closing it needs callbacks under the lock). -/
+theorem race_repaired (g : Guards) (arm z : Bool) (hg : g.dec = true) (sched : List Bool)
+    (hcb : (run g arm z sched).cbAG = true) : (run g arm z sched).decBG = true := by
+  rcases race_regions g arm z (Or.inl hg) sched hcb with h | ⟨h, _⟩
+  · exact h
+  · rw [hg] at h; cases h
+
+/-- one attendance invokes the callback of the subscription at most once, under every schedule -/
+theorem race_at_most_one_callback (g : Guards) (arm z : Bool) (sched : List Bool) : (run g arm z sched).cbs ≤ 1 := by
+  have h := (List.all_eq_true.mp (once_table g arm z)) _ (run_reach g arm z sched)
+  simpa using h
+
+/-- non-vacuity: an attendance that is not disturbed notifies (every guard position) -/
+theorem race_undisturbed_notified : ∀ (g : Guards) (arm z : Bool), (run g arm z (List.replicate 13 false)).cbs = 1 := by
+  intro ⟨t, m, d⟩ arm z
+  cases t <;> cases m <;> cases d <;> cases arm <;> cases z <;> decide
+
+/-- where the SOURCE tests membership (`Generated.LdmSections`, harness/gen_ldm_subs.py: an `ast` pass over
+`attend_subscription` and `process_notifications`) -/
+def sourceGuards : Guards := guardsOf Generated.LdmSections.attendSteps Generated.LdmSections.notifySteps
+def sourceArm : Bool := armOf Generated.LdmSections.notifySteps
+
+/-- **source_guards** (regenerated obligation): the statement lists of the source have the shape the thread programs
+assume, and the membership test stands inside the decision section, or directly before `process_notifications` with a
+re-armed record.  Moving the test in front of the search, dropping it, or dropping the re-arming re-opens this. -/
+theorem source_guards :
+    shapeOk Generated.LdmSections.attendSteps Generated.LdmSections.notifySteps = true ∧
+    (sourceGuards.dec = true ∨ (sourceGuards.mid = true ∧ sourceArm = true)) := by decide
+
+/-- **race_regions_source** — `race_regions` for the code as it is -/
+theorem race_regions_source (z : Bool) (sched : List Bool) (hcb : (run sourceGuards sourceArm z sched).cbAG = true) :
+    (run sourceGuards sourceArm z sched).decBG = true ∨
+      (sourceGuards.dec = false ∧ z = true ∧ (run sourceGuards sourceArm z sched).readyBG = true) :=
+  race_regions sourceGuards sourceArm z source_guards.2 sched hcb
+
+/-- witness (membership test only BEFORE the search): the removal returns while the attendance is searching, and the
+callback is invoked afterwards - decided after the removal, search phase not over when it returned: outside both windows -/
+theorem guard_before_search_witness :
+    let s := run ⟨true, false, false⟩ true true ([false, false, false] ++ [true, true, true, true] ++ List.replicate 5 false)
+    s.cbAG = true ∧ s.decBG = false ∧ s.readyBG = false := by decide
+
+/-- witness of window KF2 (any guard position): decided, lock released, removal returns, callback invoked -/
+theorem decided_before_removal_witness :
+    let s := run ⟨false, true, true⟩ true false (List.replicate 7 false ++ [true, true, true, true] ++ [false])
+    s.cbAG = true ∧ s.decBG = true := by decide
+
+/-- witness of window KF3 (test only in its own section, interval 0) and its absence with the test inside the decision
+section (same schedule: no callback at all) -/
+theorem gap_witness :
+    let sch := List.replicate 4 false ++ [true, true, true, true] ++ List.replicate 4 false
+    ((run ⟨false, true, false⟩ true true sch).cbAG = true ∧ (run ⟨false, true, false⟩ true true sch).decBG = false ∧
+      (run ⟨false, true, false⟩ true true sch).readyBG = true) ∧
+    (run ⟨false, true, true⟩ true true sch).cbs = 0 ∧ (run ⟨false, true, false⟩ true false sch).cbs = 0 := by decide
+
+/-- witness (no re-arming of a missing record, test in its own section): interval > 0, removal in the gap, callback -/
+theorem no_rearm_witness :
+    let s := run ⟨false, true, false⟩ false false (List.replicate 4 false ++ [true, true, true, true] ++ List.replicate 4 false)
+    s.cbAG = true ∧ s.decBG = false := by decide
+
+end Race
 
 end Props.C14
